@@ -138,6 +138,8 @@ func (g *mg) expr(d int) string {
 		return g.expr(d - 1)
 	case 9:
 		return "sink(" + g.expr(d-1) + ")"
+	case 10:
+		return "sink(/é😀[/]\\//u," + g.ws() + g.expr(d-1) + ")" // a token with non-ASCII text that is no marker
 	default:
 		return g.expr(d - 1)
 	}
@@ -192,14 +194,20 @@ func (g *mg) stmt(exportSome bool) {
 	case 8:
 		l := g.asciiIdent()
 		w(l + ":" + g.ws() + "for (;;)" + g.ws() + "{" + g.ws() + "sink(" + g.expr(1) + ");" + g.ws() + "break " + l + ";" + g.ws() + "}" + g.ws())
+	case 9:
+		// legal comments survive (inline when not bundling, at the end of the file otherwise)
+		w(pick(g.t, "legal", []string{"//! legal é😀\n", "/*! legal\n * 😀\u2028x */", "/*! 𝒳 */ "}) + g.ws() + "sink(" + g.expr(1) + ");" + g.ws())
 	default:
 		w("sink(" + g.expr(3) + ");" + g.ws())
 	}
 }
 
 func (g *mg) program(nstmts int, exportSome bool, imports []string) string {
-	if g.intn(6, "bom") == 0 {
+	switch g.intn(8, "bom") {
+	case 0:
 		g.sb.WriteString("\ufeff")
+	case 1:
+		g.sb.WriteString("#!/usr/bin/env node é😀\n") // kept (first line) for an entry point, dropped elsewhere
 	}
 	for _, im := range imports {
 		g.sb.WriteString(im + g.ws())
